@@ -523,6 +523,9 @@ func (fx *FnExec) store(st *State, lv *LVal, v *Term, p token.Pos) {
 		fx.writeObj(st, lv.obj, lv.ty, v)
 	case "elem":
 		name, s := fx.elemHeapName(lv.ety)
+		if fx.e.pureElemHeaps[name] {
+			fx.fail("store to an element of a slice of syntax-tree nodes (%s): such slices are assumed never to be written (A4)", name)
+		}
 		h := fx.heapGet(st, name, s)
 		base := SlcBase(lv.slc)
 		fx.assignCheckRef(st, base, "elem", p)
